@@ -245,6 +245,7 @@ package rlwe
 //@ afunc EvaluationKey.ReadFrom
 //@   property C08
 //@   nilable
+//@   safety index
 //@   havoc evk
 //@   ensures implies(isnil(err), n == announced(evk))
 
@@ -367,9 +368,11 @@ package rlwe
 //@   ensures implies(isnil(result1), result0 == announced(m))
 
 // Plaintext embeds Element[ring.Poly]; its own ReadFrom re-binds the convenience field
+// `safety index`: a corrupted count (no polynomial at all) is an error, not an index out of range (finding F77)
 //@ afunc Plaintext.ReadFrom
 //@   property C08
 //@   nilable
+//@   safety index
 //@   havoc pt
 //@   ensures implies(isnil(err), n == announced(pt))
 
